@@ -149,7 +149,21 @@ def run(tier, seed):
                     pf = ptr_form(fn, l.ops[0], lambda o: "buf" if M.strip(o, ("bitcast",)) == ("v", fn.params[0].id) else None, lambda o: None)
                     if pf and pf[1].is_const():
                         bind[l.id] = sym("b%d" % pf[1].c, 8)
-            ev = BitEval(fn, bind)
+            def narrower_decoder(d, fn=fn, M=M, nbytes=nbytes):
+                """a decoder may be composed of narrower decoders: each of them is itself an obligation of this rule, so its reference
+                meaning may be used here (widths strictly decrease: no circularity)"""
+                cn = mod.callee_cname(d)
+                if cn not in DECODE or DECODE[cn][1] >= nbytes:
+                    return None
+                kind2, nb2 = DECODE[cn]
+                pf = ptr_form(fn, d.ops[0], lambda o: "buf" if M.strip(o, ("bitcast",)) == ("v", fn.params[0].id) else None, lambda o: None)
+                if not pf or not pf[1].is_const():
+                    return None
+                out = []
+                for k in range(nb2):
+                    out += sym("b%d" % (pf[1].c + (k if kind2.endswith("le") else nb2 - 1 - k)), 8)
+                return out
+            ev = BitEval(fn, bind, call_model=narrower_decoder)
             r = rets(fn)[0]
             bits = ev.val(r.ops[0])
             ok = bits is not None and len(bits) == nbytes * 8
@@ -188,8 +202,8 @@ def run(tier, seed):
 
         # components of the header reader that have rules of their own (R3-R5, R8, C12): their stores are not part of a level's field table
         COMPONENTS = {"extend_raw_data", "decode_extended_headers", "read_l1_extended_headers", "process_level0_path",
-                      "process_level0_extended_area", "process_level0_unix_area", "process_level0_os9_area", "lha_ext_header_decode", "decode_ftime",
-                      "check_l0_checksum", "decode_level0_header"}
+                      "process_level0_extended_area", "lha_ext_header_decode", "decode_ftime",
+                      "decode_level0_header"}
 
         def effects_with_helpers(fn, depth=0):
             """field effects of fn plus those of private helpers that receive fn's header argument unchanged (e.g. a shared 'base fields' helper)"""
@@ -273,9 +287,10 @@ def run(tier, seed):
             "ext_header_unix_timestamp_decoder": {"timestamp": {("u32le", "data", L(0))}},
             "ext_header_os9_decoder": {"extra_flags": {("or", None, 0x10)}, "os9_perms": {("u16le", "data", L(7))}},
         }
-        reg = mod.globals.get("ext_header_types")
+        from ..exthdr import registry_global
+        reg = registry_global(mod)
         got = {}
-        if rep.need(rid, reg, "global ext_header_types") and reg["init"]["k"] == "agg":
+        if rep.need(rid, reg, "the extended-header registry table (array of LHAExtHeaderType pointers)") and reg["init"]["k"] == "agg":
             for e in reg["init"]["elems"]:
                 g = mod.globals.get(e["v"][1]) if e["k"] == "scalar" and e["v"][0] == "gv" else None
                 if not g or g["init"]["k"] != "agg":
@@ -395,32 +410,40 @@ def run(tier, seed):
                           function=r1.cname, obj="next-size")
 
         # ---- R6 OS-9 permissions ---------------------------------------------------------------------------------------------
-        rid = rep.rule("R6", "OS-9 -> Unix permission bits: in 0,1,2 -> out 8,7,6; in 3,4,5 -> out {5,2},{4,1},{3,0}; in 7 -> out 14; nothing else", 1)
-        o9 = rep.need(rid, mod.fn("os9_to_unix_permissions"), "function os9_to_unix_permissions")
+        rid = rep.rule("R6", "OS-9 -> Unix permission bits: in 0,1,2 -> out 8,7,6; in 3,4,5 -> out {5,2},{4,1},{3,0}; in 7 -> out 14; nothing else; applied only under the OS-9 flag", 3)
+        # decided where the mapping is applied (lha_file_header_read), with the mapping helper - whatever its signature - folded in by
+        # the normalised view: the one store to unix_perms whose value is computed from os9_perms
+        o9 = rep.need(rid, mod.fn("lha_file_header_read"), "function lha_file_header_read")
         if o9:
             M = Matcher(o9)
             bind = {}
             for l in o9.insts():
-                if l.op == "load" and M.match(("load", ("field", HDR, "os9_perms", ("param", 0))), ("v", l.id), {}) is not None:
+                if l.op == "load" and M.match(("load", ("field", HDR, "os9_perms", ANY)), ("v", l.id), {}) is not None:
                     bind[l.id] = sym("p", mod.int_bits(l.ty))
             ev = BitEval(o9, bind)
-            sts = stores_to_field(mod, HDR, "unix_perms", [o9])
-            ok, detail = False, "no single store to unix_perms"
-            if len(sts) == 1:
-                bits = ev.val(sts[0].ops[0])
+            cands = []
+            for st in stores_to_field(mod, HDR, "unix_perms", [o9]):
+                bits = ev.val(st.ops[0])
+                if bits is not None and any(b is not TOP and any(nm == "p" for nm, _ in b[1]) for b in bits):
+                    cands.append((st, bits))
+            ok, detail = False, "no single store to unix_perms computed from os9_perms (%d found)" % len(cands)
+            if len(cands) == 1:
+                st, bits = cands[0]
                 want = {8: 0, 7: 1, 6: 2, 5: 3, 2: 3, 4: 4, 1: 4, 3: 5, 0: 5, 14: 7}
-                ok = bits is not None
-                if ok:
-                    for j, b in enumerate(bits):
-                        exp = (0, frozenset([("p", want[j])])) if j in want else ZERO
-                        if b != exp:
-                            ok = False
-                            detail = "unix_perms bit %d is %s, expected %s" % (j, "TOP" if b is TOP else sorted(b[1]), ("os9 bit %d" % want[j]) if j in want else "0")
-                            break
-            rep.check(rid, ok, "permission matrix", "%s:%s" % (o9.file, o9.line), detail, function=o9.cname, obj="matrix")
-            fl = stores_to_field(mod, HDR, "extra_flags", [o9])
-            rep.check(rid, len(fl) == 1 and M.match(("bin", "or", ("load", ("field", HDR, "extra_flags", ANY)), 1), fl[0].ops[0], {}) is not None, "sets LHA_FILE_UNIX_PERMS", o9.file, None,
-                      function=o9.cname, obj="flag")
+                ok = True
+                for j, b in enumerate(bits):
+                    exp = (0, frozenset([("p", want[j])])) if j in want else ZERO
+                    if b != exp:
+                        ok = False
+                        detail = "unix_perms bit %d is %s, expected %s" % (j, "TOP" if b is TOP else sorted(b[1]), ("os9 bit %d" % want[j]) if j in want else "0")
+                        break
+                rep.check(rid, ok, "permission matrix", st.where(), detail, function=o9.cname, obj="matrix")
+                fl = [x for x in stores_to_field(mod, HDR, "extra_flags", [o9]) if M.match(("bin", "or", ("load", ("field", HDR, "extra_flags", ANY)), 1), x.ops[0], {}) is not None
+                      and (o9.dominates(x.block.id, st.block.id) or o9.dominates(st.block.id, x.block.id))]
+                rep.check(rid, len(fl) >= 1, "sets LHA_FILE_UNIX_PERMS together with the mapped permissions", st.where(), None, function=o9.cname, obj="flag")
+                guarded_site(rep, rid, ctx, st, [("extra_flags & LHA_FILE_OS9_PERMS", ("ne", ("bin", "and", ("load", ("field", HDR, "extra_flags", ANY)), 0x10), 0))])
+            else:
+                rep.check(rid, False, "permission matrix", "%s:%s" % (o9.file, o9.line), detail, function=o9.cname, obj="matrix")
 
         # ---- R7 DOS time fields ----------------------------------------------------------------------------------------------------
         rid = rep.rule("R7", "decode_ftime: sec = 2*bits0-4, min = bits5-10, hour = bits11-15, mday = bits16-20, mon = bits21-24 - 1, year = bits25-31 + 80, isdst = -1; 0 stays 0", 7)
@@ -511,41 +534,47 @@ def run(tier, seed):
 
         # ---- R8 level-0 extended areas ------------------------------------------------------------------------------------------------
         rid = rep.rule("R8", "level-0 Unix / OS-9 extended areas: guards and field offsets", 10)
-        ua = rep.need(rid, mod.fn("process_level0_unix_area"), "function process_level0_unix_area")
-        if ua:
-            M = Matcher(ua)
-            base_is = lambda o: "data" if M.strip(o, ("bitcast",)) == ("v", ua.params[1].id) else None
-            symf = lambda o: "len" if M.strip(o) == ("v", ua.params[2].id) else None
-            ref = {"os_type": {("u8", "data", L(0))}, "timestamp": {("u32le", "data", L(2))}, "unix_perms": {("u16le", "data", L(-6, len=1))},
-                   "unix_uid": {("u16le", "data", L(-4, len=1))}, "unix_gid": {("u16le", "data", L(-2, len=1))}, "extra_flags": {("or", None, 0x03)}}
-            eff = field_effects(ua, base_is, symf)
-            compare_effects(rep, rid, ua, eff, ref)
-            for f, kind, base, off, st in eff[:1]:
-                guarded_site(rep, rid, ctx, st, [("data_len >= 12", ("uge", ("param", 2), 12)), ("data[1] == 0", ("eq", ("load", ("gep", ("param", 1), [1])), 0))])
-        oa = rep.need(rid, mod.fn("process_level0_os9_area"), "function process_level0_os9_area")
-        if oa:
-            M = Matcher(oa)
-            base_is = lambda o: "data" if M.strip(o, ("bitcast",)) == ("v", oa.params[1].id) else None
-            symf = lambda o: "len" if M.strip(o) == ("v", oa.params[2].id) else None
-            ref = {"os_type": {("const", None, 0x39)}, "os9_perms": {("u16le", "data", L(1))}, "extra_flags": {("or", None, 0x10)}}
-            eff = field_effects(oa, base_is, symf)
-            compare_effects(rep, rid, oa, eff, ref)
-            for f, kind, base, off, st in eff[:1]:
-                guarded_site(rep, rid, ctx, st, [("data_len >= 22", ("uge", ("param", 2), 22)), ("data[9] == 0xcc", ("eq", ("load", ("gep", ("param", 1), [9])), 0xcc)),
-                                                 ("data[1] == data[17]", ("eq", ("load", ("gep", ("param", 1), [1])), ("load", ("gep", ("param", 1), [17])))),
-                                                 ("data[2] == data[18]", ("eq", ("load", ("gep", ("param", 1), [2])), ("load", ("gep", ("param", 1), [18]))))])
+        # decided on the dispatcher, with the per-kind helpers (if any) folded in by the normalised view: the stores are grouped by the
+        # switch case on data[0] that leads to them
         ea = rep.need(rid, mod.fn("process_level0_extended_area"), "function process_level0_extended_area")
         if ea:
             M = Matcher(ea)
+            F = ctx.facts(ea)
+            base_is = lambda o: "data" if M.strip(o, ("bitcast",)) == ("v", ea.params[1].id) else None
+            symf = lambda o: "len" if M.strip(o) == ("v", ea.params[2].id) else None
             sw = [i for i in ea.insts() if i.op == "switch" and M.match(("load", ("gep", ("param", 1), [0])), i.ops[0], {}) is not None]
             rep.check(rid, len(sw) == 1, "the extended area is dispatched on its first byte", ea.file, None, function=ea.cname, obj="switch")
-            for cal, vals in (("process_level0_unix_area", {0x55, 0x4b}), ("process_level0_os9_area", {0x39})):
-                for c in ea.calls(cal):
-                    got = {v & 0xFF for i in sw for v, b in i.d["cases"] if b == c.block.id}
-                    rep.check(rid, got == vals, "%s is dispatched on data[0] in %s" % (cal, sorted(hex(v) for v in vals)), c.where(), "got %s" % sorted(hex(v) for v in got),
-                              function=ea.cname, obj=cal)
-                    rep.check(rid, all(M.match(("param", k), c.ops[k], {}) is not None for k in range(3)), "%s receives (header, data, data_len) unchanged" % cal, c.where(), None,
-                              function=ea.cname, obj=cal + ":args")
+            eff_all = field_effects(ea, base_is, symf)
+            D1 = ("load", ("gep", ("param", 1), [1]))
+            GROUPS = [
+                ("Unix", {0x55, 0x4b},
+                 {"os_type": {("u8", "data", L(0))}, "timestamp": {("u32le", "data", L(2))}, "unix_perms": {("u16le", "data", L(-6, len=1))},
+                  "unix_uid": {("u16le", "data", L(-4, len=1))}, "unix_gid": {("u16le", "data", L(-2, len=1))}, "extra_flags": {("or", None, 0x03)}},
+                 [("data_len >= 12", ("uge", ("param", 2), 12)), ("data[1] == 0", ("eq", D1, 0))]),
+                ("OS-9", {0x39},
+                 {"os_type": {("const", None, 0x39)}, "os9_perms": {("u16le", "data", L(1))}, "extra_flags": {("or", None, 0x10)}},
+                 [("data_len >= 22", ("uge", ("param", 2), 22)), ("data[9] == 0xcc", ("eq", ("load", ("gep", ("param", 1), [9])), 0xcc)),
+                  ("data[1] == data[17]", ("eq", D1, ("load", ("gep", ("param", 1), [17])))),
+                  ("data[2] == data[18]", ("eq", ("load", ("gep", ("param", 1), [2])), ("load", ("gep", ("param", 1), [18]))))]),
+            ]
+            claimed = set()
+            for gname, vals, ref, guards in GROUPS:
+                targets = {bb for i in sw for v, bb in i.d["cases"] if (v & 0xFF) in vals}
+                others = {v & 0xFF for i in sw for v, bb in i.d["cases"] if bb in targets} - vals
+                rep.check(rid, bool(targets) and not others and {v & 0xFF for i in sw for v, bb in i.d["cases"] if bb in targets} == vals,
+                          "%s area is dispatched on data[0] in %s" % (gname, sorted(hex(v) for v in vals)), ea.file, "also reached for %s" % sorted(hex(v) for v in others) if others else None,
+                          function=ea.cname, obj="dispatch-" + gname)
+                eff = [e_ for e_ in eff_all if any(ea.dominates(t, e_[4].block.id) for t in targets)]
+                claimed |= {id(e_[4]) for e_ in eff}
+
+                class _FnView:          # compare_effects only needs a name and a location
+                    cname, file, line = "%s (%s area)" % (ea.cname, gname), ea.file, ea.line
+                compare_effects(rep, rid, _FnView, eff, ref)
+                for f_, kind, base, off, st in eff[:1]:
+                    guarded_site(rep, rid, ctx, st, guards)
+            stray = [e_ for e_ in eff_all if id(e_[4]) not in claimed]
+            rep.check(rid, not stray, "no header field is written outside the two recognised areas", ea.file, "%s" % [(e_[0], e_[4].where()) for e_ in stray][:3] if stray else None,
+                      function=ea.cname, obj="stray")
 
         # ---- R9 all-caps folding -------------------------------------------------------------------------------------------------------
         rid = rep.rule("R9", "all-caps folding: a byte of path/filename is replaced by tolower() only for DOS-like OS types and only after *both* strings were "
